@@ -7,7 +7,9 @@ package main
 // graph.addNode, START as the first previous node, an edge from every previous node, the new node becomes the
 // previous one), addEndIfNeeded (the deferred error first, END edges once) and Compile (addEndIfNeeded, then the
 // graph's compile).  Also the two public wrappers of the Graph the model's [gstep] stands for: Graph.AddEdge
-// (which flags it hands to addEdgeWithMappings) and graph.AddBranch (skipData).
+// (which flags it hands to addEdgeWithMappings) and graph.AddBranch (skipData), and the public methods that hand a
+// component to addNode — (*graph).Add<Component>Node, (*Chain).Append<Component> — each with the verdict "is addNode on
+// its own key with the node and options of to<Component>Node(its own arguments)" (c20NodeWrappers).
 //
 // Recognised: if with and without returns; c.err / c.hasEnd / c.gg.compiled / len(c.preNodeKeys) == 0 / x != nil on
 // a local error / s == "" on a local key; c.reportError(e); c.err = e; c.hasEnd = true; c.nodeIdx++;
@@ -41,7 +43,178 @@ func init() {
 		"Definition addNode (nodeIsNil : bool) (c : cstate) (optNodeKey : string) (nk : nkind) (needState : bool) : cstate :=\n"+
 		"  c_append c nk (if String.eqb optNodeKey \"\" then None else Some optNodeKey) needState.\n"+
 		"Definition addEndIfNeeded (c : cstate) : cstate * option ecls := (c, None).\n"+
-		"Definition compile (c : cstate) (opt : copt) : cstate * outcome := c_compile fixed c opt.\n")
+		"Definition compile (c : cstate) (opt : copt) : cstate * outcome := c_compile fixed c opt.\n"+
+		"Definition graph_node_wrappers : list (string * bool) := nil.\nDefinition chain_node_wrappers : list (string * bool) := nil.\n")
+}
+
+// c20NodeWrappers: the public methods that hand a component to addNode — (*graph).Add<Component>Node and
+// (*Chain).Append<Component> — each with the verdict "its body is addNode on the method's own key with the node and
+// options to<Component>Node made of the method's arguments, and what addNode answers is what the caller gets":
+//
+//	gNode, options := to<Component>Node(<the parameters after key>...)
+//	return g.addNode(key, gNode, options)                  (or: e := g.addNode(…); return e / err = …; return)
+//	c.addNode(gNode, options); return c                    (Chain: the error is recorded by addNode itself)
+//
+// A body of plain statements (assignments, calls, returns) that is not of this form is a DIFFERENT wrapper (false:
+// the agreement theorem fails — the error dropped, another key, the node of another call); a body with control
+// structure, or that calls anything but to<Component>Node and addNode (a helper in between), is not recognised (tie unavailable).
+func c20NodeWrappers(f *ast.File, recvType, recv string, chain bool) ([][2]string, error) {
+	var out [][2]string
+	for _, d := range f.Decls {
+		fn, ok := d.(*ast.FuncDecl)
+		if !ok || fn.Recv == nil || fn.Body == nil || !fn.Name.IsExported() {
+			continue
+		}
+		name := fn.Name.Name
+		if chain {
+			if !strings.HasPrefix(name, "Append") || name == "AppendBranch" || name == "AppendParallel" {
+				continue
+			}
+		} else if !strings.HasPrefix(name, "Add") || !strings.HasSuffix(name, "Node") {
+			continue
+		}
+		if c20WfMethod(f, recvType, name) != fn || len(fn.Recv.List[0].Names) != 1 || fn.Recv.List[0].Names[0].Name != recv {
+			continue
+		}
+		v, err := c20OneNodeWrapper(fn, recv, chain)
+		if err != nil {
+			return nil, err
+		}
+		out = append(out, [2]string{name, v})
+	}
+	if len(out) < 3 {
+		return nil, fmt.Errorf("the public methods of %s that add a node were not found", recvType)
+	}
+	return out, nil
+}
+
+func c20OneNodeWrapper(fn *ast.FuncDecl, recv string, chain bool) (string, error) {
+	name := fn.Name.Name
+	for _, st := range fn.Body.List {
+		switch st.(type) {
+		case *ast.AssignStmt, *ast.ExprStmt, *ast.ReturnStmt:
+		default:
+			return "", fmt.Errorf("%s: statement %s not recognised", name, c20Brief(st))
+		}
+		plain := true
+		ast.Inspect(st, func(n ast.Node) bool {
+			if _, ok := n.(*ast.FuncLit); ok {
+				plain = false
+			}
+			return plain
+		})
+		if !plain {
+			return "", fmt.Errorf("%s: statement %s not recognised", name, c20Brief(st))
+		}
+	}
+	l := fn.Body.List
+	// every call but the first statement's has to be addNode itself: a body that goes through another function
+	// (a helper in between, a renamed constructor) is not recognised rather than judged
+	unknownCall := ""
+	for i, st := range l {
+		ast.Inspect(st, func(n ast.Node) bool {
+			call, ok := n.(*ast.CallExpr)
+			if !ok {
+				return true
+			}
+			if i == 0 {
+				if id, isID := call.Fun.(*ast.Ident); isID && strings.HasPrefix(id.Name, "to") && strings.HasSuffix(id.Name, "Node") {
+					return true
+				}
+			} else if c20Txt(call.Fun) == recv+".addNode" {
+				return true
+			}
+			if unknownCall == "" {
+				unknownCall = c20Txt(call.Fun)
+			}
+			return true
+		})
+	}
+	if unknownCall != "" {
+		return "", fmt.Errorf("%s: call of %s not recognised", name, unknownCall)
+	}
+	if len(l) < 2 {
+		return "false", nil
+	}
+	// the parameters: key first (graph), then what goes to to<Component>Node, the last one variadic
+	var params []string
+	variadic := false
+	for _, fl := range fn.Type.Params.List {
+		_, variadic = fl.Type.(*ast.Ellipsis)
+		for _, n := range fl.Names {
+			params = append(params, n.Name)
+		}
+	}
+	if !variadic || len(params) == 0 || (!chain && len(params) < 2) {
+		return "false", nil
+	}
+	key := ""
+	if !chain {
+		key, params = params[0], params[1:]
+	}
+	// gNode, options := to<Component>Node(params...)
+	as, ok := l[0].(*ast.AssignStmt)
+	if !ok || as.Tok != token.DEFINE || len(as.Lhs) != 2 || len(as.Rhs) != 1 {
+		return "false", nil
+	}
+	nodeVar, optVar := c20Txt(as.Lhs[0]), c20Txt(as.Lhs[1])
+	mk, ok := as.Rhs[0].(*ast.CallExpr)
+	if !ok || !mk.Ellipsis.IsValid() || len(mk.Args) != len(params) {
+		return "false", nil
+	}
+	for i, a := range mk.Args {
+		if c20Txt(a) != params[i] {
+			return "false", nil
+		}
+	}
+	if nodeVar == "_" || optVar == "_" || nodeVar == optVar {
+		return "false", nil
+	}
+	want := recv + ".addNode(" + nodeVar + "," + optVar + ")"
+	if !chain {
+		want = recv + ".addNode(" + key + "," + nodeVar + "," + optVar + ")"
+	}
+	if chain {
+		// c.addNode(gNode, options); return c
+		if len(l) != 3 {
+			return "false", nil
+		}
+		ex, ok := l[1].(*ast.ExprStmt)
+		ret, ok2 := l[2].(*ast.ReturnStmt)
+		if ok && ok2 && c20Txt(ex.X) == want && len(ret.Results) == 1 && c20Txt(ret.Results[0]) == recv {
+			return "true", nil
+		}
+		return "false", nil
+	}
+	switch len(l) {
+	case 2:
+		if ret, ok := l[1].(*ast.ReturnStmt); ok && len(ret.Results) == 1 && c20Txt(ret.Results[0]) == want {
+			return "true", nil
+		}
+	case 3:
+		// e := g.addNode(…); return e      /      err = g.addNode(…); return  (err the named result)
+		a2, ok := l[1].(*ast.AssignStmt)
+		ret, ok2 := l[2].(*ast.ReturnStmt)
+		if ok && ok2 && len(a2.Lhs) == 1 && len(a2.Rhs) == 1 && c20Txt(a2.Rhs[0]) == want {
+			e := c20Txt(a2.Lhs[0])
+			if e != "_" && len(ret.Results) == 1 && c20Txt(ret.Results[0]) == e && a2.Tok == token.DEFINE {
+				return "true", nil
+			}
+			if res := fn.Type.Results; a2.Tok == token.ASSIGN && len(ret.Results) == 0 && res != nil && len(res.List) == 1 &&
+				len(res.List[0].Names) == 1 && res.List[0].Names[0].Name == e {
+				return "true", nil
+			}
+		}
+	}
+	return "false", nil
+}
+
+func c20WrapperTable(name, what string, ws [][2]string) string {
+	var items []string
+	for _, w := range ws {
+		items = append(items, fmt.Sprintf("(%q, %s)", w[0], w[1]))
+	}
+	return fmt.Sprintf("(* %s *)\nDefinition %s : list (string * bool) :=\n  [%s].\n\n", what, name, strings.Join(items, "; "))
 }
 
 type c20Ch struct {
@@ -435,6 +608,18 @@ func c20ExtractChain(repo string) (string, string, error) {
 	}
 	fmt.Fprintf(&b, "(* graph.go: graph.AddBranch *)\nDefinition graph_AddBranch (g : gstate) (startNode : string) (endNodes : list string) : gstate * outcome :=\n  g_add_branch g startNode endNodes %s.\n\n", c20Txt(ab.Args[2]))
 	b.WriteString("Definition gg_AddEdge (c : cstate) (a b : string) : cstate * option ecls :=\n  let '(g, o) := graph_AddEdge (c_g c) a b in (c_set_g g c, err_of o).\n\n")
+
+	// ---- the public methods that hand a component to addNode
+	gws, err := c20NodeWrappers(gr, "graph", "g", false)
+	if err != nil {
+		return "", "", err
+	}
+	cws, err := c20NodeWrappers(f, "Chain", "c", true)
+	if err != nil {
+		return "", "", err
+	}
+	b.WriteString(c20WrapperTable("graph_node_wrappers", "graph.go: the public Add<Component>Node methods of a graph, each with \"its body is: gNode, options := to<Component>Node(node, opts...); return g.addNode(key, gNode, options)\"", gws))
+	b.WriteString(c20WrapperTable("chain_node_wrappers", "chain.go: the public Append<Component> methods of a Chain, each with \"its body is: gNode, options := to<Component>Node(node, opts...); c.addNode(gNode, options); return c\"", cws))
 
 	newTr := func(fn, kind string) *c20Ch {
 		return &c20Ch{fn: fn, errVars: errVars, errLoc: map[string]bool{}, strLoc: map[string]bool{}, retKind: kind}
